@@ -110,6 +110,8 @@ SPECS['C20'] = dict(
     thorough=dict(workers=16, cases=30000, size=100, timeout=3600),
 )
 
+_DAEMON = dict(shims=['sut_strm', 'sut_echsd'], shim_flags={'sut_echsd': ['-I/verif/sut/fakeev']}, repo_srcs=['logger'])
+
 SPECS['C01'] = dict(
     kind='native', drivers=['p_c01.cpp'], shims=['sut_strm'], with_lib=True,
     level='exploration',
@@ -237,13 +239,14 @@ SPECS['C10'] = dict(
 )
 
 SPECS['C05'] = dict(
-    kind='native', drivers=['p_c05.cpp'], shims=['sut_strm'], with_lib=True,
+    kind='native', drivers=['p_c05.cpp'], with_lib=True, **_DAEMON,
     level='exploration',
-    technique='model equality for generated task attributes and print/parse round-trip at generated stream positions (rapidcheck)',
+    technique='model equality for generated task attributes, print/parse round-trip at generated stream positions, and read-back of the queue file the echsd harness writes for several tasks (rapidcheck)',
     level_text=('Part A: generated task models with every README field independently present/absent, calendar-level defaults, shuffled property order, folding and 1-3 '
                 'events per calendar are rendered to text and the task read must equal the model. Part B: generated events over the whole input language are consumed for '
                 'k in {0,1,2,5,62..66,127,130,200} occurrences, written with echs_task_icalify, re-read, and attributes plus the next 150 (start, duration) pairs compared '
-                'with the original stream at that position.'),
+                'with the original stream at that position.'
+                ' Part C (1 case in 8): 2..4 generated tasks of one user are submitted to the echsd harness, checkpointed, and the queue file is read back: every task must come back with exactly the attributes it was accepted with (what one task sets must not rub off on another). 1 task in 25 has all text fields near the line limit at once, so that its text exceeds the serialiser\'s 4 KiB buffer.'),
     level_note='the expected attribute dump is computed from the model by props/icalgen.hpp; owner is excluded from the round-trip comparison (the serialisation does not carry it)',
     rule=('attrs case = calendar text + expected canonical dumps; rt case = (calendar text with one event: 1-3 RRULEs from the C01 generator plus SHIFT/BYEASTER/SCALE, optional RDATE, '
           'EXDATE, DURATION; k). non-trivial: attrs: >=3 fields set and one of LOCATION/SHELL/IFILE/MAIL-OUT/UMASK set without SETUID; rt: k>0 and the rule has a BY part. '
@@ -251,7 +254,7 @@ SPECS['C05'] = dict(
     assumptions=['values avoid backslash, comma-in-list and colon subtleties whose meaning the statement does not pin',
                  'the spelling of the written text is never compared, only what it reads back as',
                  'DTSTAMP and generated UIDs are not compared'],
-    quick=dict(workers=16, cases=400, size=100, timeout=1500),
+    quick=dict(workers=16, cases=1500, size=100, timeout=1500),
     thorough=dict(workers=16, cases=16000, size=100, timeout=7200),
 )
 
@@ -272,7 +275,6 @@ SPECS['C07'] = dict(
     thorough=dict(workers=16, cases=6000, size=100, timeout=7200),
 )
 
-_DAEMON = dict(shims=['sut_strm', 'sut_echsd'], shim_flags={'sut_echsd': ['-I/verif/sut/fakeev']}, repo_srcs=['logger'])
 
 SPECS['C04'] = dict(
     kind='native', drivers=['p_c04.cpp'], with_lib=True, **_DAEMON,
